@@ -58,7 +58,7 @@ PROPS["C12"] = {
 PROPS["C18"] = {
     "level": "proof",
     "technique": "deductive verification of every OverlapResult operation against a representation invariant (ghost source window lo..hi, trims ts/te) re-established by each operation; span == total row length by an explicit induction lemma; bounded exhaustive edit sequences as cross-check and replay source",
-    "level_text": "find_overlaps is proved to establish, and discard_start, discard_end, trim_large_overhangs, trim_fragment to preserve, the invariant wf: rows are source rows lo..hi with only the terminal fragments shortened (by ts / te bases, strand-aware), first and last rows are fragments, start == 1 + cum(lo) + ts, end == cum(hi+1) - te; hence for every accepted edit sequence of any length the span equals the rows (lemma by induction), no terminal gap exists, and the overhang / bait-overlap / what-if properties equal plain interval arithmetic (each proved as result == formula).",
+    "level_text": "find_overlaps is proved to establish, and discard_start, discard_end, trim_large_overhangs, trim_fragment - and the two premise operations StartOverhangPremise.apply / EndOverhangPremise.apply through which the overhang resolver edits a result - to preserve, the invariant wf: rows are source rows lo..hi with only the terminal fragments shortened (by ts / te bases, strand-aware), first and last rows are fragments, start == 1 + cum(lo) + ts, end == cum(hi+1) - te; hence for every accepted edit sequence of any length the span equals the rows (lemma by induction), no terminal gap exists, and the overhang / bait-overlap / what-if properties equal plain interval arithmetic (each proved as result == formula).",
     "level_note": "Trusted: pyvc encoding (lists, object identity of Fragment via allocation stamps), SMT solvers, the induction principle used by lemma c18_span_equals_rows (base and step are discharged). Nothing is claimed after an operation has raised (trim_fragment may have moved start before Fragment() rejects an empty interval).",
     "lemmas": ["c18_span_equals_rows"],
     "bounded": [("bounded.c18", {})],
@@ -172,7 +172,7 @@ PIPE_TRUSTED = LIST_TRUSTED + [
     "list comprehensions [f(x) for x in xs] and zip(xs, ys[, strict=True]) loops: element-wise over the list model",
     "dynamic dispatch: a member overridden in a subclass is resolved by the object's class (class map); references declared exact (constructor results, output assemblies) are not dispatched",
     "a generator method under an `as_list` contract is the list of what it yields (scaffolds_fused_by_name); statement postconditions are proved where they stand and used from there on (cut)",
-    "ASSUMED call-site effects (not derived from the bodies): ScaffoldNamer.make_scaffold_name only reads the scaffold it is given, sets name / rank / haplotype state and starts an empty unloc list; Scaffold.fragment_tags returns a new set; ChrNamer.add_chr_prefix / name_chromosomes change nothing but scaffold names (ChrNamer.__init__ and add_scaffold are under contract: frame proved); AssemblyStats.make_stats changes only the statistics object; Assembly.smart_sort_scaffolds permutes the scaffold list in place",
+    "ASSUMED call-site effects (not derived from the bodies): ScaffoldNamer.make_scaffold_name only reads the scaffold it is given, sets name / rank / haplotype state and starts an empty unloc list; Scaffold.fragment_tags returns a new set; ChrNamer.name_chromosomes changes nothing but scaffold names (ChrNamer.__init__, add_scaffold and add_chr_prefix are under contract: frames proved); AssemblyStats.make_stats changes only the statistics object; Assembly.smart_sort_scaffolds permutes the scaffold list in place",
 ]
 PIPE_NOTE = ("Under contract from the pipeline (each per piece / per row / per fused scaffold, i.e. as a postcondition of one loop iteration): find_overlaps, trimming and cutting, "
              "store_fragments_found, add_overhang_premise and the premise what-ifs, scaffolds_fused_by_name, assemblies_with_scaffolds_fused, add_missing_scaffolds_from_input, rename_by_size, label_scaffold. "
@@ -182,7 +182,7 @@ PIPE_NOTE = ("Under contract from the pipeline (each per piece / per row / per f
 PROPS["C01"] = {
     "level": "other",
     "technique": "deductive verification of the steps that carry conservation (lookup returns source rows, trims produce sub-intervals, the cut QC is a sound gate, cut_fragments' pieces add up, bookkeeping of placed contigs, premises, left-over contigs kept) + bounded base-by-base conservation oracle over PretextView-model and perturbed maps, down to the files the CLI writes",
-    "level_text": "Proved: find_overlaps returns a window of the input scaffold's own row objects; discard/trim operations keep rows a sub-run of that window; trim_fragment returns a sub-interval of the trimmed contig under its name; qc_sub_fragments is an exact gate: it returns normally only if the pieces, sorted, abut pairwise, start at the contig's start and end at its end (exact partition), and it raises only if they do not (a consistent set of pieces is never rejected); cut_fragments makes one such piece per overlap result, all sub-intervals, lengths adding up to the contig, the first piece (in contig order) keeping the contig's start and the last its end on either strand; store_fragments_found records every contig row of a placed piece under its (name, start, end), a second sighting marking it as found more than once, and lists the piece as a holder; add_overhang_premise makes exactly one what-if per holder that has the shared contig at an end (start premise for the first row, end premise for the last) and none for a holder that has it in the middle; the premises' bait overlap, what-if overhang, its change and `improves` equal interval arithmetic; add_missing_scaffolds_from_input keeps every contig the map did not place, whole and in order, in a left-over scaffold, and raises nothing of its own (only naming may fail). Bounded: the composition over the whole run (every base of every input contig in exactly one output fragment across all output assemblies; errors instead of silent loss for perturbed maps).",
+    "level_text": "Proved: find_overlaps returns a window of the input scaffold's own row objects; discard/trim operations keep rows a sub-run of that window; trim_fragment returns a sub-interval of the trimmed contig under its name; qc_sub_fragments is an exact gate: it returns normally only if the pieces, sorted, abut pairwise, start at the contig's start and end at its end (exact partition), and it raises only if they do not (a consistent set of pieces is never rejected); cut_fragments makes one such piece per overlap result, all sub-intervals, lengths adding up to the contig, the first piece (in contig order) keeping the contig's start and the last its end on either strand; store_fragments_found records every contig row of a placed piece under its (name, start, end), a second sighting marking it as found more than once, and lists the piece as a holder; add_overhang_premise makes exactly one what-if per holder that has the shared contig at an end (start premise for the first row, end premise for the last) and none for a holder that has it in the middle; the premises' bait overlap, what-if overhang, its change and `improves` equal interval arithmetic; applying a premise (Start/EndOverhangPremise.apply, the only way make_fixes changes an overlap result) removes rows at the end the premise is about from its own overlap result, keeps the other end and the bait, and leaves the result well-formed; add_missing_scaffolds_from_input keeps every contig the map did not place, whole and in order, in a left-over scaffold, and raises nothing of its own (only naming may fail). Bounded: the composition over the whole run (every base of every input contig in exactly one output fragment across all output assemblies; errors instead of silent loss for perturbed maps).",
     "level_note": PIPE_NOTE,
     "lemmas": [],
     "bounded": [("bounded.c01", {})],
@@ -237,7 +237,7 @@ PROPS["C09"] = {
 PROPS["C10"] = {
     "level": "other",
     "technique": "deductive verification of the name counters, of ScaffoldNamer.rename_by_size (names redistributed by non-increasing length) and of the output sort key (rank, natural key) + bounded naming/ordering/CSV oracle over tagged maps",
-    "level_text": "Proved: haplotig and unloc names are taken from strictly increasing counters (each number used once), the output order key is (rank, natural name key) with rank first (C20 contracts), label_scaffold assigns rank 3 to special pieces; rename_by_size hands the k-th name (in order of appearance) to the k-th longest scaffold of the list - lengths as Scaffold.length / OverlapResult.length report them at that moment, dispatched on the object's class - and changes nothing but names; the configured chromosome prefix is handed by the autosome_prefix setter to both of its users (the namer that builds <prefix>n and the statistics object that writes the CSV) and to nothing else, and the getter returns the namer's copy; ChrNamer starts empty with the prefix it is given, and add_scaffold appends (str(haplotype), scaffold) to the namer's own list, marks the haplotype in its own dictionary and touches nothing else. Bounded: when rename_by_size is called relative to cuts (known finding), uniqueness of names per assembly, chromosome numbering by size without holes, unloc/haplotig ranking, CSV. Known findings: C10-unloc-rank-precut-length, C10-unloc-number-hole, C10-unloc-only-chromosome-csv.",
+    "level_text": "Proved: haplotig and unloc names are taken from strictly increasing counters (each number used once), the output order key is (rank, natural name key) with rank first (C20 contracts), label_scaffold assigns rank 3 to special pieces; rename_by_size hands the k-th name (in order of appearance) to the k-th longest scaffold of the list - lengths as Scaffold.length / OverlapResult.length report them at that moment, dispatched on the object's class - and changes nothing but names, and only names of scaffolds of that list (an object whose name differs afterwards stands in the list); rename_haplotigs_by_size / rename_unlocs_by_size apply it to the namer's own haplotig / unloc list and rename nothing outside it; a new ScaffoldNamer starts with both counters at zero (so the first names are H_1 and .._unloc_1), two different empty lists, no current scaffold, no Target tag seen; the configured chromosome prefix is handed by the autosome_prefix setter to both of its users (the namer that builds <prefix>n and the statistics object that writes the CSV) and to nothing else, and the getter returns the namer's copy; ChrNamer starts empty with the prefix it is given, and add_scaffold appends (str(haplotype), scaffold) to the namer's own list, marks the haplotype in its own dictionary and touches nothing else; add_chr_prefix puts the prefix in front of the scaffold's name exactly when the name does not start with it already (so the result always starts with the prefix, applying it twice changes nothing) and changes nothing but that name. Bounded: when rename_by_size is called relative to cuts (known finding), uniqueness of names per assembly, chromosome numbering by size without holes, unloc/haplotig ranking, CSV. Known findings: C10-unloc-rank-precut-length, C10-unloc-number-hole, C10-unloc-only-chromosome-csv.",
     "level_note": PIPE_NOTE,
     "lemmas": [],
     "bounded": [("bounded.c10", {})],
